@@ -469,6 +469,8 @@ pub struct ConvCase {
     pub delivery_optional: bool,
     pub bound_ms: u64,
     pub sched: Sched,
+    /// keep the server-side read record of this connection after the run (C14)
+    pub keep_read_track: bool,
 }
 
 impl ConvCase {
@@ -649,6 +651,7 @@ pub struct ConvObs {
     pub server_reads: Vec<usize>,
     pub wall_us: u64,
     pub client_local: Option<std::net::SocketAddr>,
+    pub client_port: u16,
 }
 
 impl ConvObs {
@@ -715,6 +718,7 @@ pub fn run_conv(env: &Env, case: &ConvCase) -> ConvObs {
         server_reads: Vec::new(),
         wall_us: 0,
         client_local: None,
+        client_port: 0,
     };
     let mut client = match Client::connect(&env.addr) {
         Ok(c) => c,
@@ -724,6 +728,7 @@ pub fn run_conv(env: &Env, case: &ConvCase) -> ConvObs {
         }
     };
     obs.client_local = client.local;
+    obs.client_port = client.port;
     let fin = Arc::new(AtomicUsize::new(0));
     let app = Arc::new(ConvApp {
         port: client.port,
@@ -874,9 +879,16 @@ pub fn run_conv(env: &Env, case: &ConvCase) -> ConvObs {
     if !case.unix {
         let pr = crate::env::reads_of(client.port);
         obs.server_reads = pr.reads;
-        crate::env::reads_forget(client.port);
     }
+    let port = client.port;
     drop(client);
+    if !case.unix {
+        if case.keep_read_track {
+            // the caller wants to wait for the server side of this connection to go quiet
+        } else {
+            crate::env::reads_forget(port);
+        }
+    }
     obs.wall_us = t0.elapsed().as_micros() as u64;
     obs
 }
